@@ -96,6 +96,8 @@ def run(F, R):
     sinks = []
     for b in ds:
         for c in b.calls_to(r"dynamic::subscription::\{impl#\d+\}::collect_streams$"):
+            if re.search(r"::collect_streams$", b.defp):
+                continue  # the walker's own recursion into fragments: already behind the entry call's gate
             sinks.append((b, c))
     R.floor("R19.2", "dynamic subscription collection sites", len(sinks), 1)
     for b, c in sinks:
